@@ -151,8 +151,127 @@ pub fn eval_c08_seq(case: &Case) -> Outcome {
     outcome(&h, verdict, nontrivial, classes)
 }
 
+fn c15_eval(case: &Case, real: bool) -> Outcome {
+    // warm-up: thread-local ledger and environment exist before anything is measured
+    let _ = crate::elem::thread_ledger();
+    let mut balances = vec![];
+    let mut flags = (false, false, None::<Violation>);
+    for _rep in 0..2 {
+        // nothing allocated inside the gate may survive it: only plain flags are returned
+        let (s, bytes, blocks) = crate::alloc::gated(|| {
+            let h = if real { crate::real::run_real(case) } else { crate::seq::run_seq(case) };
+            let panicked = oracle::unexpected_panic(&h).is_some();
+            let (pos, skipped) = cursor(&h);
+            (panicked, skipped || pos < h.info.len as u128)
+        });
+        balances.push((bytes, blocks));
+        flags.0 |= s.0;
+        flags.1 = s.1;
+    }
+    if flags.0 {
+        // re-run outside the gate to obtain the message
+        let h = if real { crate::real::run_real(case) } else { crate::seq::run_seq(case) };
+        flags.2 = panic_guard(&h).err();
+    }
+    let undelivered = flags.1;
+    let heap_source = match case.kind {
+        Kind::VecOwn => case.layout != Layout::Zst && case.len + case.extra_cap > 0,
+        Kind::IterOwn => case.len > 0,
+        _ => matches!(case.layout, Layout::Boxed | Layout::Str) && case.len > 0,
+    };
+    let buffer_alive = case.kind == Kind::IterOwn
+        && case.threads.iter().any(|t| t.iter().any(|o| matches!(o, Op::BufNew { .. } | Op::Drain(How::Buf(_)))));
+    let mut classes = vec![kind_class(case.kind), case.layout.name()];
+    classes.push(if matches!(case.terminal, Terminal::Drop) { "ends-in-drop" } else { "ends-in-into_seq" });
+    if buffer_alive {
+        classes.push("chunk-buffer-alive");
+    }
+    if undelivered {
+        classes.push("undelivered-part");
+    }
+    if case.extra_cap > 0 {
+        classes.push("capacity>len");
+    }
+    let nontrivial = heap_source && (undelivered || buffer_alive);
+    let verdict = match flags.2 {
+        Some(v) => Err(v),
+        None => {
+            if balances.iter().any(|b| *b != (0, 0)) {
+                Err(Violation {
+                    what: if balances.iter().any(|b| b.0 > 0 || b.1 > 0) { "leak" } else { "negative-balance" },
+                    detail: format!(
+                        "after the iterator, everything it delivered and everything obtained from it were dropped, the allocation balance of the case is {} bytes in {} blocks (first run) and {} bytes in {} blocks (repetition); expected 0/0",
+                        balances[0].0, balances[0].1, balances[1].0, balances[1].1
+                    ),
+                })
+            } else {
+                Ok(())
+            }
+        }
+    };
+    Outcome {
+        verdict,
+        sig_ctx: kind_class(case.kind).to_string(),
+        nontrivial,
+        classes,
+        inconclusive: false,
+        evals: 2,
+        dfs: None,
+        witness: None,
+    }
+}
+
+pub fn eval_c15_seq(case: &Case) -> Outcome {
+    c15_eval(case, false)
+}
+
+pub fn eval_c15_real(case: &Case) -> Outcome {
+    c15_eval(case, true)
+}
+
+pub fn eval_c08_real(case: &Case) -> Outcome {
+    let h = crate::real::run_real(case);
+    let verdict = panic_guard(&h).and_then(|_| oracle::c08_exactly_once_ownership(&h));
+    let unconsumed_chunk = h.ops.iter().any(|o| matches!(&o.res, Res::Chunk { announced, items, .. } if items.len() < *announced));
+    let (pos, skipped) = cursor(&h);
+    let nontrivial = case.threads.len() >= 2 && (skipped || pos < h.info.len as u128 || unconsumed_chunk);
+    let mut classes = vec![kind_class(case.kind), "real-threads"];
+    if unconsumed_chunk {
+        classes.push("unconsumed-chunk-part");
+    }
+    outcome(&h, verdict, nontrivial, classes)
+}
+
+pub fn eval_c10_real(case: &Case) -> Outcome {
+    let h = crate::real::run_real(case);
+    let verdict = panic_guard(&h).and_then(|_| oracle::c10_into_seq(&h));
+    let nontrivial = case.threads.len() >= 2 && matches!(h.term, TermRes::Seq { .. }) && h.ops.len() >= 2;
+    outcome(&h, verdict, nontrivial, vec![kind_class(case.kind), "real-threads"])
+}
+
 // ------------------------------------------------------------------------------------------------
 // generator presets
+
+fn cfg_c15(thorough: bool, real: bool) -> GenCfg {
+    let mut c = GenCfg::base(CONSUMING);
+    c.max_len = if thorough { 64 } else { 24 };
+    c.min_threads = if real { 2 } else { 1 };
+    c.max_threads = 3;
+    c.max_ops = 5;
+    c.w_skip = 1;
+    c.terminal_mode = 2;
+    c.extra_cap = true;
+    c.layouts = if real {
+        vec![Layout::Tracked, Layout::Boxed, Layout::Str]
+    } else {
+        vec![Layout::Tracked, Layout::Boxed, Layout::Str, Layout::Zst]
+    };
+    if std::env::var("VERIF_C15_KINDS").ok().as_deref() == Some("vec-tracked") {
+        c.kinds = vec![Kind::VecOwn];
+        c.layouts = vec![Layout::Tracked];
+    }
+    c
+}
 
 fn cfg_c10(thorough: bool) -> GenCfg {
     let mut kinds: Vec<Kind> = ALL_KINDS.to_vec();
@@ -206,6 +325,16 @@ pub fn check(ctx: &mut Ctx) -> Option<Meta> {
                 run: &eval_c10_seq,
                 rule: rule.clone(),
             });
+            let mut cfg_r = cfg_c10(thorough);
+            cfg_r.min_threads = 2;
+            cfg_r.layouts = vec![Layout::Tracked];
+            ctx.run_campaign(&Campaign {
+                name: "real-into_seq".into(),
+                cases: scale_cases(ctx, 10_000, 20),
+                make_strategy: &|| case_strategy(&cfg_r),
+                run: &eval_c10_real,
+                rule: "the same oracle after concurrent use by 2-3 real OS threads, joined before the conversion".into(),
+            });
             Some(Meta {
                 level: "exploration",
                 rule,
@@ -224,10 +353,117 @@ pub fn check(ctx: &mut Ctx) -> Option<Meta> {
                 run: &eval_c08_seq,
                 rule: rule.clone(),
             });
+            let mut cfg_r = cfg_c08(thorough);
+            cfg_r.min_threads = 2;
+            cfg_r.layouts = vec![Layout::Tracked];
+            ctx.run_campaign(&Campaign {
+                name: "real-ledger".into(),
+                cases: scale_cases(ctx, 10_000, 20),
+                make_strategy: &|| case_strategy(&cfg_r),
+                run: &eval_c08_real,
+                rule: "the same ledger oracle after concurrent use by 2-3 real OS threads, joined before drop / into_seq_iter".into(),
+            });
             Some(Meta {
                 level: "exploration",
                 rule,
                 assumptions: assumptions_common(),
+            })
+        }
+        "C16" => {
+            let twin = |c: &Case| crate::twin::judge_in_twins("C16", "seq", c);
+            crate::replay::replay_saved(ctx, "seq", &crate::c16::eval_c16);
+            crate::replay::replay_saved(ctx, "seq", &twin);
+            let grid = crate::c16::grid();
+            let rule = "exhaustively enumerated grid: range bounds {0,1,2,3,5,MAX/2-2..MAX/2+2,MAX-5,MAX-3,MAX-2,MAX-1,MAX}^2 (both constructors) and every other source kind with lengths {0,1,2,3,5}, first pull one-shot or buffered with sizes {0,1,len-1,len,len+1,MAX/2,MAX/2+1,MAX-2,MAX-1,MAX} (<=4096 for buffered pulls on wrapped iterators), 8 tails of further pulls / skip / length queries, drop or into_seq_iter; plus buffered_iter(0), for_each(0), enumerate_for_each(0), fold(0) and huge sizes through the composites; oracle: u128 cursor model step by step, never an empty chunk or out-of-range value, no panic except the documented zero-size panics (which must occur); every case is judged in-process (release) and in both twin processes (debug-assertions+overflow-checks on / off); non-trivial = an operand within 5 of 0, MAX/2 or MAX; thorough adds random neighbours of the grid".to_string();
+            ctx.run_enumeration("seq-grid-release", &grid, &crate::c16::eval_c16, "the C16 grid described in rule");
+            ctx.run_enumeration("seq-grid-twins", &grid, &twin, "the C16 grid, in both overflow modes");
+            if thorough {
+                ctx.run_campaign(&Campaign {
+                    name: "seq-grid-neighbours".into(),
+                    cases: scale_cases(ctx, 20_000, 50),
+                    make_strategy: &crate::c16::random_strategy,
+                    run: &crate::c16::eval_c16,
+                    rule: "random boundary ranges / chunk sizes with random tails".into(),
+                });
+                ctx.run_campaign(&Campaign {
+                    name: "seq-grid-neighbours-twins".into(),
+                    cases: scale_cases(ctx, 10_000, 20),
+                    make_strategy: &crate::c16::random_strategy,
+                    run: &twin,
+                    rule: "the same in both overflow modes".into(),
+                });
+            } else {
+                ctx.run_campaign(&Campaign {
+                    name: "seq-grid-neighbours".into(),
+                    cases: scale_cases(ctx, 20_000, 1),
+                    make_strategy: &crate::c16::random_strategy,
+                    run: &crate::c16::eval_c16,
+                    rule: "random boundary ranges / chunk sizes with random tails".into(),
+                });
+            }
+            Some(Meta {
+                level: "exploration",
+                rule,
+                assumptions: assumptions_common(),
+            })
+        }
+        "C17" => {
+            crate::replay::replay_saved(ctx, "seq", &crate::twin::eval_c17);
+            let mut cfg = GenCfg::base(ALL_KINDS);
+            cfg.kinds.extend_from_slice(CONSUMING);
+            cfg.kinds.extend_from_slice(CONSUMING);
+            cfg.max_len = if thorough { 24 } else { 12 };
+            cfg.max_threads = 2;
+            cfg.max_ops = 6;
+            cfg.w_skip = 1;
+            cfg.w_len = 1;
+            cfg.w_has = 1;
+            cfg.w_drain_composite = 1;
+            cfg.terminal_mode = 2;
+            cfg.extra_cap = true;
+            cfg.layouts = vec![Layout::Tracked, Layout::Tracked, Layout::Zst];
+            let rule = "ordinary sequential histories over all kinds (chunk sizes <= len+3) executed by two builds of the crate and the harness (debug-assertions + overflow-checks on / both off, same optimisation level) in separate processes; oracle: the transcripts (every result, panics, process aborts, destructor ledger, 'allocation balance is zero') are identical; non-trivial = the history contains a chunk pull or ends a consuming iterator; distinct by case hash".to_string();
+            ctx.run_campaign(&Campaign {
+                name: "seq-twins".into(),
+                cases: scale_cases(ctx, 30_000, 30),
+                make_strategy: &|| case_strategy(&cfg),
+                run: &crate::twin::eval_c17,
+                rule: rule.clone(),
+            });
+            let mut a = assumptions_common();
+            a.push("std's ub_checks (active in code monomorphised under debug assertions) are the oracle for 'documented preconditions of the standard library'".into());
+            Some(Meta {
+                level: "exploration",
+                rule,
+                assumptions: a,
+            })
+        }
+        "C15" => {
+            crate::replay::replay_saved(ctx, "seq", &eval_c15_seq);
+            crate::replay::replay_saved(ctx, "real", &eval_c15_real);
+            let cfg = cfg_c15(thorough, false);
+            let cfg_r = cfg_c15(thorough, true);
+            let rule = "E2/E3 histories on consuming kinds (Vec with capacity > len, [T;N], owning wrapped iterator) with element layouts {zero-sized, 24 bytes, Box, String}, ending in drop or into_seq_iter; the whole case runs inside a gated counting allocator and is executed twice; oracle: allocation balance (bytes and blocks) exactly zero in both runs; second campaign: the same after concurrent use by 2-3 real threads; non-trivial = the source owned heap memory and the case ends with an undelivered part or a live chunk buffer; distinct by case hash".to_string();
+            ctx.run_campaign(&Campaign {
+                name: "seq-alloc-balance".into(),
+                cases: scale_cases(ctx, 100_000, 30),
+                make_strategy: &|| case_strategy(&cfg),
+                run: &eval_c15_seq,
+                rule: rule.clone(),
+            });
+            ctx.run_campaign(&Campaign {
+                name: "real-alloc-balance".into(),
+                cases: scale_cases(ctx, 10_000, 20),
+                make_strategy: &|| case_strategy(&cfg_r),
+                run: &eval_c15_real,
+                rule: rule.clone(),
+            });
+            let mut a = assumptions_common();
+            a.push("only allocations made through the global allocator on the threads of the case are counted (gate on); thread creation/joining is excluded".into());
+            Some(Meta {
+                level: "exploration",
+                rule,
+                assumptions: a,
             })
         }
         _ => {
@@ -246,6 +482,11 @@ pub fn eval_for(prop: &str, engine: &str) -> Option<fn(&Case) -> Outcome> {
     match (prop, engine) {
         ("C10", _) => Some(eval_c10_seq),
         ("C08", "seq") => Some(eval_c08_seq),
+        ("C08", "real") => Some(eval_c08_real),
+        ("C15", "real") => Some(eval_c15_real),
+        ("C16", _) => Some(crate::c16::eval_c16),
+        ("C17", _) => Some(crate::twin::eval_c17),
+        ("C15", _) => Some(eval_c15_seq),
         _ => {
             #[cfg(orx_concurrent_iter_verif)]
             {
